@@ -7,7 +7,7 @@ from lib import recipe
 INV = ['InOrder', 'OversizeStops', 'BytesConserved']
 PROPS = ['NoReadAfterStop', 'NeverShort', 'EOFExact', 'OversizeOnlyIfTooBig', 'WithinLimit',
          'ArgErrorsBeforeIO']
-MINV = INV + ['BytesIntact', 'OutcomesKnown', 'SendRefusalsExact']
+MINV = INV + ['BytesIntact', 'OutcomesKnown', 'SendRefusalsExact', 'AsksWhatRemains']
 
 
 def consts(seqs, fragall, extra, maxlens, bufs, eintr=1, ops=0, duplex=False):
@@ -40,7 +40,8 @@ def main(ctx):
         smalls = [consts([[0, 2], [3]], 7, [], [-1, 1], [[2, 0], [4, 1]]),
                   consts([[2, 1]], 7, [], [-1, 1], [[3, 1]], duplex=True),
                   consts([[16385, 0], [16384]], 0, [3, 4, 5, 16384], [-1, 16384], [[16385, 0]],
-                         eintr=0, ops=6)]
+                         eintr=0, ops=6),
+                  consts([[5, 2], [8], [4, 6]], 5, [], [-1], [[8, 4], [8, 0], [12, 4]], eintr=0)]
         wide = consts([[0, 2], [3], [1, 0, 2]], 7, [], [-1, 1, 2], [[2, 0], [4, 1]])
         walks = consts([[0, 1, 16384, 16385, 70000], [70000, 0, 3], [1048576, 5]], 3,
                        [4, 5, 4096, 16384, 16388, 65536], [-1, 0, 16384, 70000],
@@ -49,7 +50,8 @@ def main(ctx):
     else:
         smalls = [consts([[1], [0, 1]], 7, [], [-1, 0], [[2, 1]], eintr=0),
                   consts([[0, 2]], 7, [], [-1, 1], [[2, 0]], duplex=True),
-                  consts([[16385, 0]], 0, [4, 5, 16384], [-1, 16384], [[16385, 0]], eintr=0, ops=5)]
+                  consts([[16385, 0]], 0, [4, 5, 16384], [-1, 16384], [[16385, 0]], eintr=0, ops=5),
+                  consts([[5, 2], [8]], 3, [], [-1], [[8, 4], [8, 0], [12, 4]], eintr=0)]   # item-wise buffers
         wide = consts([[0, 2], [3], [1, 0]], 7, [], [-1, 1, 2], [[2, 0], [4, 1]])
         walks = consts([[0, 1, 16384, 16385, 70000], [70000, 0, 3]], 3,
                        [4, 5, 4096, 16384, 16388, 65536], [-1, 0, 16384, 70000],
